@@ -7,6 +7,7 @@ import (
 	"bytes"
 	"crypto/sha256"
 	"fmt"
+	"os"
 	"strings"
 
 	"github.com/gcash/bchutil/base58"
@@ -494,6 +495,10 @@ var bip173Invalid = []string{
 }
 
 func main() {
+	if os.Getenv(hangChildEnv) != "" {
+		hangChildMain()
+		return
+	}
 	cfg = vh.ParseFlags("C07")
 	rep = vh.NewReport(cfg)
 	rep.Rule = "structured generators (exhaustive small scopes + random + BIP173 vectors + mutations); a case is non-trivial when it passes the outer validation layer (non-empty alphabet string / >=5 decoded bytes / valid bech32 / in-range regrouping); distinct by input"
@@ -647,13 +652,29 @@ func main() {
 	// long runs of leading zero bytes / leading '1' characters, around the widths a narrow counter would wrap at
 	r = rng.Fork("b58-zero-runs")
 	fam = "leading-zero-runs"
-	for _, n := range []int{7, 8, 63, 64, 127, 128, 254, 255, 256, 257, 258, 300, 511, 512, 513} {
-		for ti, tail := range [][]byte{nil, {1}, {0xff, 0, 1}, r.Bytes(1 + r.Intn(9))} {
-			b := append(make([]byte, n), tail...)
-			b58Encode(b, ti < 2 && (n >= 254 && n <= 258 || n == 64 || n == 512))
-			str := append(bytes.Repeat([]byte{'1'}, n), []byte(base58.Encode(tail))...)
-			b58Decode(string(str), ti < 2 && (n >= 254 && n <= 258 || n == 128))
+	// round 3: the family first runs in a child process with a deadline (hangchild.go); in-process (monitors + Coq
+	// cases) only when every call returned there
+	if hung := runHangPreflight(); len(hung) == 0 {
+		zr := []int{7, 8, 63, 64, 127, 128, 254, 255, 256, 257, 258, 300, 511, 512, 513, 1000}
+		if cfg.Thorough() {
+			zr = append(zr, 65535, 65536, 65537)
 		}
+		for _, n := range zr {
+			for ti, tail := range [][]byte{nil, {1}, {0xff, 0, 1}, r.Bytes(1 + r.Intn(9))} {
+				if n > 5000 && ti != 1 {
+					continue
+				}
+				b := append(make([]byte, n), tail...)
+				b58Encode(b, ti < 2 && (n >= 254 && n <= 258 || n == 64 || n == 512))
+				str := append(bytes.Repeat([]byte{'1'}, n), []byte(base58.Encode(tail))...)
+				b58Decode(string(str), ti < 2 && (n >= 254 && n <= 258 || n == 128))
+				if ti < 2 && n >= 254 && n <= 513 {
+					checkDecode(al.RefBase58Check(0, b), false)
+				}
+			}
+		}
+	} else {
+		rep.Extra["leading_zero_runs_in_process"] = "skipped: the preflight in the child process saw a hang"
 	}
 
 	// --- base58check
